@@ -5,6 +5,7 @@ package main
 import (
 	"bytes"
 	"fmt"
+	"github.com/agglayer/aggkit/aggsender/optimistic/optimistichash"
 	"math/big"
 	"strings"
 
@@ -69,6 +70,7 @@ func giExec(r *Run, line string) {
 	case "cons":
 		x := bigOf(ws[1])
 		var parts [5][]byte
+		var opt [32]byte
 		obs := guard(func() string {
 			f := flows.NewBaseFlow(lg(), nil, nil, nil, nil, flows.NewBaseFlowConfigDefault())
 			ibe, err := f.ConvertClaimToImportedBridgeExit(bridgesync.Claim{GlobalIndex: x, Amount: big.NewInt(0)})
@@ -89,8 +91,10 @@ func giExec(r *Run, line string) {
 				[]*agglayertypes.ImportedBridgeExitWithBlockNumber{{BlockNumber: 1, ImportedBridgeExit: ibe}})
 			pr := aggchainproofclient.VerifConvertAggchainProofRequest(req)
 			parts[0], parts[1], parts[2], parts[3] = h.Bytes(), fep, p.GlobalIndex.Value, pr.ImportedBridgeExits[0].GlobalIndex.Value
-			return fmt.Sprintf("cons %s %d %d hash=%s fep=%s wire=%s prover=%s", b2s(ibe.GlobalIndex.MainnetFlag),
-				ibe.GlobalIndex.RollupIndex, ibe.GlobalIndex.LeafIndex, hx(h.Bytes()), hx(fep), hx(p.GlobalIndex.Value), hx(pr.ImportedBridgeExits[0].GlobalIndex.Value))
+			// the optimistic-mode signed commitment over the same claim
+			opt = optimistichash.CalculateCommitImportedBrdigeExitsHashFromClaims([]bridgesync.Claim{{GlobalIndex: x, Amount: big.NewInt(0)}})
+			return fmt.Sprintf("cons %s %d %d hash=%s fep=%s wire=%s prover=%s opt=%s", b2s(ibe.GlobalIndex.MainnetFlag),
+				ibe.GlobalIndex.RollupIndex, ibe.GlobalIndex.LeafIndex, hx(h.Bytes()), hx(fep), hx(p.GlobalIndex.Value), hx(pr.ImportedBridgeExits[0].GlobalIndex.Value), hx(opt[:]))
 		})
 		r.Emit(line, obs)
 		// monitor: for canonical on-chain values every consumer carries the value x itself
@@ -101,7 +105,9 @@ func giExec(r *Run, line string) {
 			for i := range be {
 				le[i] = be[31-i]
 			}
-			if !bytes.Equal(parts[1], le) || !bytes.Equal(parts[2], be) || !bytes.Equal(parts[3], be) || !bytes.Equal(parts[0], crypto.Keccak256(le)) {
+			zeroExit := (&agglayertypes.BridgeExit{TokenInfo: &agglayertypes.TokenInfo{}, Amount: big.NewInt(0)}).Hash()
+			if !bytes.Equal(parts[1], le) || !bytes.Equal(parts[2], be) || !bytes.Equal(parts[3], be) || !bytes.Equal(parts[0], crypto.Keccak256(le)) ||
+				opt != [32]byte(crypto.Keccak256Hash(le, zeroExit[:])) {
 				r.Fail(fmt.Sprintf("consumers disagree with on-chain value %s: %s", x, obs), []string{line})
 			}
 		} else if giCanonical(x) {
